@@ -411,3 +411,103 @@ pub fn move_cursor_finish_case(seed: u64, idx: u64) -> CaseOut {
     co.see("move_cursor_finish_kinds", fin);
     co
 }
+
+// ------------------------------------------------------------------------------------------------------
+// C04: a bar finished by the exhaustion of a wrapped iterator
+// ------------------------------------------------------------------------------------------------------
+// The terminating `None` may come from next(), next_back() or a mix of both (rev(), rfold, a double-ended
+// walk that meets in the middle); whichever end it comes from, the bar is finished according to the
+// behaviour configured with with_finish(), and the screen shows exactly that.
+
+pub fn iter_finish_case(seed: u64, idx: u64) -> CaseOut {
+    use indicatif::{ProgressFinish, ProgressIterator};
+    let mut rng = Rng::derive(seed, 414, idx);
+    let replay = format!("i{seed}:{idx}");
+    let fin = rng.below(5);
+    let fin_name = ["AndLeave", "WithMessage", "AndClear", "Abandon", "AbandonWithMessage"][fin as usize];
+    let walk = rng.below(4);
+    let walk_name = ["next", "next_back", "rev", "alternating ends"][walk as usize];
+    let n = rng.range(0, 12);
+    let declared = if rng.chance(1, 3) { n + rng.range(1, 5) } else { n };
+    let in_multi = rng.chance(1, 2);
+    let w = J::obj().with("with_finish", fin_name).with("walk", walk_name).with("items", n).with("declared_length", declared).with("in_multi", in_multi);
+    let feats = vec!["iterator-exhaustion".to_string(), fin_name.to_string(), format!("walk-{walk_name}")];
+    let mut co = CaseOut::held(fnv1a(format!("{fin}{walk}{n}{declared}{in_multi}").as_bytes()), true);
+    let spy = SpyTerm::new(40, 12, false);
+    spy.state().snap_on_flush = false;
+    let res = catch_unwind(AssertUnwindSafe(|| -> Verdict {
+        let on_finish = match fin {
+            0 => ProgressFinish::AndLeave,
+            1 => ProgressFinish::WithMessage("done".into()),
+            2 => ProgressFinish::AndClear,
+            3 => ProgressFinish::Abandon,
+            _ => ProgressFinish::AbandonWithMessage("left".into()),
+        };
+        let style = ProgressStyle::with_template("B {pos}/{len} [{msg}]").unwrap();
+        let mp = in_multi.then(|| MultiProgress::with_draw_target(ProgressDrawTarget::term_like(spy.boxed())));
+        let pb = match &mp {
+            Some(mp) => mp.add(ProgressBar::with_draw_target(Some(declared), ProgressDrawTarget::hidden()).with_style(style).with_finish(on_finish)),
+            None => ProgressBar::with_draw_target(Some(declared), ProgressDrawTarget::term_like(spy.boxed())).with_style(style).with_finish(on_finish),
+        };
+        pb.set_message("run");
+        let mut it = (0..n).progress_with(pb.clone());
+        let mut seen = 0u64;
+        match walk {
+            0 => while it.next().is_some() { seen += 1 },
+            1 => while it.next_back().is_some() { seen += 1 },
+            2 => {
+                for _ in it.rev() {
+                    seen += 1;
+                }
+            }
+            _ => {
+                let mut front = true;
+                loop {
+                    let x = if front { it.next() } else { it.next_back() };
+                    front = !front;
+                    if x.is_none() {
+                        break;
+                    }
+                    seen += 1;
+                }
+            }
+        }
+        let want_row = match fin {
+            0 => Some(format!("B {declared}/{declared} [run]")),
+            1 => Some(format!("B {declared}/{declared} [done]")),
+            2 => None,
+            3 => Some(format!("B {seen}/{declared} [run]")),
+            _ => Some(format!("B {seen}/{declared} [left]")),
+        };
+        let rows = rows_of(&spy);
+        let bar_rows: Vec<&String> = rows.iter().filter(|r| r.starts_with("B ")).collect();
+        let ok = match &want_row {
+            None => bar_rows.is_empty(),
+            Some(r) => bar_rows.len() == 1 && bar_rows[0] == r,
+        };
+        let finished = pb.is_finished();
+        // keep the handle (and the MultiProgress) alive until the screen has been read
+        std::mem::forget(pb);
+        std::mem::forget(mp);
+        if !finished {
+            return viol("no-final-frame", feats.clone(), format!("the iterator ({walk_name}, {n} items) is exhausted but the bar is not finished; screen {rows:?}"), w.clone(), replay.clone());
+        }
+        if !ok {
+            return viol(
+                if want_row.is_none() { "cleared-bar-visible" } else { "final-frame-wrong" },
+                feats.clone(),
+                format!("iterator exhausted through {walk_name} with with_finish({fin_name}): the screen shows {bar_rows:?}, expected {want_row:?}"),
+                w.clone(),
+                replay.clone(),
+            );
+        }
+        Verdict::Held
+    }));
+    match res {
+        Ok(v) => co.verdict = v,
+        Err(p) => co.verdict = viol("panic", feats, format!("panicked: {}", crate::world::panic_message(&p)), w, replay),
+    }
+    co.count("iterator_finishes_checked", 1);
+    co.see("iterator_finish_kinds", fin * 4 + walk);
+    co
+}
